@@ -6,7 +6,7 @@
 (* says the position lies within the text the file name stands for (the input,  *)
 (* an include file or a built-in pseudo-file), given that text's line lengths.   *)
 EXTENDS Integers, Sequences, FiniteSets, TLC
-Entries == {"compile", "assemble", "disassemble", "deserialise", "brun", "run", "cldb", "preprocess", "deps", "usecheck", "repl"}
+Entries == {"compile", "assemble", "disassemble", "deserialise", "brun", "run", "cldb", "cldb-file", "preprocess", "deps", "usecheck", "repl"}
 Outcomes == {"ok", "err"}
 Forbidden == {"panic", "abort", "timeout", "garbled"}
 \* "slow": the observer gave up on a call that was still running without any evidence of a loop (a valid program whose
